@@ -213,6 +213,40 @@ func readOp(t failer, r *stream.Reader, op streamOp, useSlice bool) {
 	}
 }
 
+// readOpLoose performs the typed read of op without comparing anything (truncated stream).
+func readOpLoose(r *stream.Reader, op streamOp, useSlice bool) {
+	switch op.Kind {
+	case "byte":
+		_ = r.ReadByte()
+	case "bytes":
+		if useSlice {
+			_ = r.ReadSlice(len(op.B))
+		} else {
+			_ = r.ReadBytes(len(op.B))
+		}
+	case "varint32":
+		_ = r.ReadVarint32()
+	case "varint64":
+		_ = r.ReadVarint64()
+	case "uvarint32":
+		_ = r.ReadUvarint32()
+	case "uvarint64":
+		_ = r.ReadUvarint64()
+	case "uint16":
+		_ = r.ReadUint16()
+	case "int16":
+		_ = r.ReadInt16()
+	case "uint32":
+		_ = r.ReadUint32()
+	case "int32":
+		_ = r.ReadInt32()
+	case "uint64":
+		_ = r.ReadUint64()
+	default:
+		_ = r.ReadInt64()
+	}
+}
+
 // TestStreamRoundTrip: any sequence of typed writes is read back unchanged by the matching typed
 // reads, sizes follow the documented encodings (LEB128 / little endian fixed width), Position and
 // Empty track the cursor, ReadAt re-positions on any written boundary, and a writer / reader that
@@ -226,6 +260,7 @@ func TestStreamRoundTrip(t *testing.T) {
 		canon := ""
 		nOps := 0
 		kinds := map[string]bool{}
+		truncBefore := false
 		for round := 0; round < rounds; round++ {
 			ops := genStreamOps(t, fmt.Sprintf("o%d_", round))
 			total := 0
@@ -263,6 +298,19 @@ func TestStreamRoundTrip(t *testing.T) {
 
 			var r *stream.Reader
 			if rapid.Bool().Draw(t, fmt.Sprintf("reuseReader%d", round)) {
+				if len(data) > 0 && rapid.IntRange(0, 2).Draw(t, fmt.Sprintf("truncFirst%d", round)) == 0 {
+					// the reused reader first goes over a truncated copy of the stream (typed reads run past the
+					// end, the reader records an error), then it is Reset to the intact stream
+					cut := rapid.IntRange(0, len(data)-1).Draw(t, fmt.Sprintf("truncAt%d", round))
+					rd.Reset(data[:cut:cut])
+					for i, op := range ops {
+						readOpLoose(rd, op, i%2 == 0)
+					}
+					if rd.Error() == nil && !rd.Empty() {
+						t.Fatalf("round %d: all %d ops read from a stream cut to %d of %d bytes, no error and bytes left", round, len(ops), cut, len(data))
+					}
+					truncBefore = true
+				}
 				rd.Reset(data)
 				r = rd
 			} else {
@@ -309,6 +357,9 @@ func TestStreamRoundTrip(t *testing.T) {
 			canon += fmt.Sprintf("%s:%x;", wk, data)
 		}
 		classes := []string{fmt.Sprintf("rounds=%d", rounds)}
+		if truncBefore {
+			classes = append(classes, "reader-ran-past-truncated-end-before")
+		}
 		for _, k := range streamKinds {
 			if kinds[k] {
 				classes = append(classes, "op="+k)
